@@ -257,7 +257,7 @@ def _check(run, replay, work):
             want = json.load(f)["case"]["case"]["c"]
         cases = [c for c in cases if c["c"] == want]
     elif run.tier == "quick":
-        cases = random.Random(run.seed).sample(cases, min(1200, len(cases)))
+        cases = random.Random(run.seed).sample(cases, min(6000, len(cases)))
     else:
         run.exhaustive = True
     if not cases:
